@@ -15,7 +15,7 @@ Row(t, k, d) == [t |-> t, k |-> k, d |-> d]
 BodyC == {"minus", "plus", "zero"}
 \* a line that opens a file section: git's "diff" line, diff -ru's title line, or (plain diff -u
 \* without title lines) the "--- " line of the next file
-IsStart(l) == l.c \in {"diff", "du", "sublog"} \/ l.kd = "dufile"
+IsStart(l) == l.c \in {"diff", "du", "sublog", "onlyin"} \/ l.kd = "dufile"
 Boundaryish(l) == IsStart(l) \/ l.c = "commit"
 \* lines whose text looks like a header but which are hunk lines (diff -u): removed "-- x", added "++ x"
 HunkC(c) == IF c = "minus3" THEN "minus" ELSE IF c = "plus3" THEN "plus" ELSE c
@@ -31,6 +31,7 @@ WantHeader(l) ==
   LET f == l.f g == l.g kd == l.kd IN
   CASE kd \in {"mod", "bare", "cc", "subshort"} -> <<f, f, "modified", 0, FALSE>>
     [] kd = "sublog"               -> <<f, f, "submodule", 0, FALSE>>
+    [] kd = "onlyin"               -> <<f, f, "onlyin", 0, FALSE>>      \* diff -r: file on one side only
     [] kd \in {"add", "addempty"}  -> <<0, f, "added", 0, FALSE>>
     [] kd = "del"                  -> <<f, 0, "removed", 0, FALSE>>
     [] kd \in {"rename", "renmod"} -> <<f, g, "renamed", 0, FALSE>>
